@@ -1,36 +1,956 @@
+// C03: nothing executes unless the operation passed parsing, validation and
+// every gate (spec/Pipeline.tla; notes/C03.md).
 package main
 
 import (
+	"bytes"
+	"encoding/json"
 	"fmt"
 	"math/rand"
+	"os"
+	"path/filepath"
+	"regexp"
+	"sort"
+	"strconv"
+	"strings"
+	"time"
 
 	"verifharness/c03lib"
+	"verifharness/vlib"
+)
+
+const (
+	// keys of the genuine defects of the per-request rule swap (DESIGN 7 #3)
+	keyAccepted = "rule-swap-race:unknown-field-document-accepted-cached-executed"
+	keyPanic    = "rule-swap-race:panic-on-damaged-rule-slice"
+	keyDataRace = "rule-swap-race:go-race-detector-report-on-validator.specifiedRules"
+)
+
+var (
+	c        *vlib.Check
+	es       = c03lib.NewES()
+	thorough = vlib.Tier() == "thorough"
 )
 
 func main() {
-	es := c03lib.NewES()
-	rng := rand.New(rand.NewSource(1))
+	switch os.Getenv("C03_MODE") {
+	case "race":
+		raceChild()
+		return
+	case "child":
+		c03lib.ChildMain()
+		return
+	}
+	c = vlib.NewCheck("C03", "model_checking")
+	c.Set("rule", "TLC: all interleavings at shared-state steps of N requests x extension lists x caches x suggestions (constants in spec/MC_Pipeline*.cfg). "+
+		"Implementation: (A) every TLC-enumerated order of cache operations of 2 (thorough: sample of 3) concurrent requests is forced on the real executor through a gating query cache; "+
+		"(B) seeded random sessions (extension lists of length 0-3 over all 63 hook subsets x {none,map,lru1-3} x suggestions on/off x direct/HTTP x sequential and concurrent steps over the 8-kind request alphabet) "+
+		"are recorded and validated by TLC against PipelineTrace; a case class = request kind x rejection x cache kind x seq/conc x suggestions x #extensions x mode; "+
+		"(C) statistical reproduction of the rule-swap window with lockstep goroutines")
+	c.Assume("TLC and the Json community module are correct")
+	c.Assume("gqlparser's parser, validator.Validate with an explicit rule list and validator.VariableValues classify the documents of the alphabet (independent of the executor and of the global rule set)")
+	c.Assume("the hand-written ExecutableSchema nests RootResolverMiddleware / ResolverMiddleware the way generated code does")
+	c.Assume("word-sized loads and stores of the slice header are atomic (rule model \"words\")")
+
+	if f := os.Getenv("VERIF_REPLAY"); f != "" {
+		replay(f)
+		return
+	}
+	selfCheckAlphabet()
+	modelCheck()
+	var sessions []*c03lib.Session
+	sessions = append(sessions, replaySchedules()...)
+	sessions = append(sessions, randomSessions()...)
+	validate(sessions)
+	selfTest(sessions)
+	window()
+	if thorough {
+		raceRun()
+	}
+	c.Finish()
+}
+
+// ---------------------------------------------------------------------------
+
+func selfCheckAlphabet() {
+	rng := rand.New(rand.NewSource(7))
+	exts := []c03lib.HookSet{c03lib.HookSetOf(63), c03lib.HookSetOf(3)}
 	for _, k := range c03lib.Kinds {
-		for i := 0; i < 30; i++ {
-			q := c03lib.GenRequest(rng, k, nil, true)
+		for i := 0; i < 60; i++ {
+			q := c03lib.GenRequest(rng, k, exts, true)
 			q.Describe(es.Schema(), false)
 			if !q.Consistent() {
-				fmt.Println("INCONSISTENT", k, q.Query, q.OpName, q.Vars, q.Cls, q.OpSel, q.VarCls)
+				vlib.Infra("request alphabet: %q (opname %q, vars %v) meant as %s is classified %s/%s/%s", q.Query, q.OpName, q.Vars, k, q.Cls, q.OpSel, q.VarCls)
 			}
 		}
 	}
-	exts := []c03lib.HookSet{c03lib.HookSetOf(63), c03lib.HookSetOf(0b111100), c03lib.HookSetOf(0b100011)}
-	s := &c03lib.Session{Cfg: c03lib.Config{ID: "s1", Exts: exts, CK: "lru", CN: 1, Sugg: true, Rules0: []string{"FOCT"}}}
-	s.Steps = [][]*c03lib.Request{
-		{c03lib.GenRequest(rng, "valid", exts, true)},
-		{c03lib.GenRequest(rng, "unknown-field", exts, true), c03lib.GenRequest(rng, "multi-operation", exts, true)},
-		{{Kind: "valid", Query: "subscription { tick }", Rej: c03lib.Rej{K: "none"}, Vars: map[string]any{}}},
-		{{Kind: "valid", Query: "{ user { id } }", Rej: c03lib.Rej{K: "cm", I: 3}, Vars: map[string]any{}}},
-	}
 	c03lib.ResetRules()
-	s.Run(es)
-	for _, l := range s.Lines {
-		fmt.Println(string(l))
+	if got := strings.Join(c03lib.ProbeRules(es.Schema()), ","); got != "FOCT" {
+		vlib.Infra("cannot reset the global rule set: probe says %q", got)
 	}
-	fmt.Println(c03lib.ProbeRules(es.Schema()))
+}
+
+func tlc(name, module, cfg string, workers int, cov bool, timeout time.Duration) *vlib.TLCResult {
+	res, err := vlib.RunTLC(vlib.TLCOpts{Module: module, Config: cfg, Workers: workers, Coverage: cov,
+		Scratch: vlib.Work("C03", "tlc-"+name), Timeout: timeout})
+	if err != nil {
+		vlib.Infra("TLC %s: %v", name, err)
+	}
+	if res.TimedOut {
+		vlib.Infra("TLC %s timed out", name)
+	}
+	return res
+}
+
+// modelCheck runs the exhaustive configurations. The repaired design must
+// satisfy I1-I5; the model of the current code is expected to violate them
+// (recorded, not a verdict: the verdict comes from the real code below).
+func modelCheck() {
+	mc := map[string]any{}
+	need := func(name, cfg string, workers int, cov bool) *vlib.TLCResult {
+		r := tlc(name, "MC_Pipeline", cfg, workers, cov, 15*time.Minute)
+		if !r.OK {
+			vlib.Infra("model %s: TLC reports an error on the specification alone:\n%s", cfg, r.Violation)
+		}
+		c.AddStates(r.Distinct, r.Generated)
+		mc[cfg] = map[string]any{"distinct": r.Distinct, "generated": r.Generated, "depth": r.Depth, "wall_s": r.WallS, "result": "no error"}
+		fmt.Fprintf(os.Stderr, "[tlc] %s: %d distinct / %d generated states, depth %d, %.1fs: no error\n", cfg, r.Distinct, r.Generated, r.Depth, r.WallS)
+		return r
+	}
+	r := need("mc", "MC_Pipeline.cfg", 4, thorough)
+	if thorough {
+		for _, a := range []string{"Start", "Emit", "CacheGet", "Validate", "CacheAdd"} {
+			if r.ActionCount[a] == 0 {
+				vlib.Infra("vacuous model check: action %s was never taken (coverage %v)", a, r.ActionCount)
+			}
+		}
+		mc["coverage"] = r.ActionCount
+	}
+	need("steps", "MC_PipelineSteps.cfg", 4, false)
+	need("atomic", "MC_PipelineCur_atomic.cfg", 4, false)
+	if thorough {
+		need("mc3", "MC_Pipeline3.cfg", 4, false)
+	}
+	for _, inv := range []string{"I1", "I2", "I5"} {
+		cfg := "MC_PipelineCur_words_" + inv + ".cfg"
+		r := tlc("words"+inv, "MC_Pipeline", cfg, 4, false, 10*time.Minute)
+		if r.OK || !strings.Contains(r.Output, "Invariant "+inv+" is violated") {
+			vlib.Infra("model %s: expected TLC to violate %s on the model of the current per-request rule swap; output:\n%s", cfg, inv, tailStr(r.Output, 2000))
+		}
+		c.AddStates(r.Distinct, r.Generated)
+		steps := []string{}
+		for _, m := range regexp.MustCompile(`State \d+: <(\w+)\((\d+)`).FindAllStringSubmatch(r.Output, -1) {
+			steps = append(steps, m[1]+"("+m[2]+")")
+		}
+		mc[cfg] = map[string]any{"distinct": r.Distinct, "generated": r.Generated, "result": "Invariant " + inv + " is violated", "behaviour": strings.Join(steps, " ")}
+		fmt.Fprintf(os.Stderr, "[tlc] %s: %s VIOLATED by the model of the current code: %s\n", cfg, inv, strings.Join(steps, " "))
+	}
+	c.Set("model_checks", mc)
+}
+
+// ---------------------------------------------------------------------------
+// (A) replay of TLC-generated interleavings of the cache operations
+
+type schedJ struct {
+	CK   string `json:"ck"`
+	CN   int    `json:"cn"`
+	Sugg bool   `json:"sugg"`
+	GLog []struct {
+		R  int    `json:"r"`
+		Op string `json:"op"`
+		D  string `json:"d"`
+	} `json:"glog"`
+	Reqs []struct {
+		Q, Cls, OpSel, VCls, Last string
+	} `json:"reqs"`
+}
+
+func concretise(q, cls, opsel, vcls string) *c03lib.Request {
+	r := &c03lib.Request{Rej: c03lib.Rej{K: "none"}, Vars: map[string]any{}}
+	switch q {
+	case "Q1":
+		r.Query, r.Kind = "query F($id: Int!) { find(id: $id) user { id } }", "valid"
+		r.Vars = map[string]any{"id": 1}
+	case "Q2":
+		r.Query, r.Kind = "query A { name } query B { a: name }", "multi-operation"
+		r.OpName = "B"
+	case "QU":
+		r.Query, r.Kind = "{ name nosuch }", "unknown-field"
+	case "QP":
+		r.Query, r.Kind = "{ name", "parse-error"
+	default:
+		vlib.Infra("schedule export: unknown query id %s", q)
+	}
+	if opsel == "notfound" {
+		r.OpName, r.Kind = "Nope", "operation-not-found"
+	}
+	if vcls == "bad" {
+		r.Vars, r.Kind = map[string]any{"id": "x"}, "bad-variable"
+	}
+	return r
+}
+
+func replaySchedules() []*c03lib.Session {
+	cfg, module := "MC_PipelineSched.cfg", "MC_Pipeline"
+	if thorough {
+		cfg = "MC_PipelineSched3.cfg"
+	}
+	var lines []string
+	for _, cf := range []string{"MC_PipelineSched.cfg", cfg} {
+		r := tlc("sched-"+cf, module, cf, 1, false, 20*time.Minute)
+		if !r.OK {
+			vlib.Infra("schedule export %s: %s", cf, r.Violation)
+		}
+		c.AddStates(r.Distinct, r.Generated)
+		lines = append(lines, r.Printed...)
+		if cf == cfg {
+			break
+		}
+	}
+	seen := map[string]bool{}
+	var scheds []schedJ
+	for _, ln := range lines {
+		if !strings.HasPrefix(ln, "\"{") {
+			continue
+		}
+		var inner string
+		if err := json.Unmarshal([]byte(ln), &inner); err != nil {
+			vlib.Infra("schedule export: %v in %s", err, ln)
+		}
+		if seen[inner] {
+			continue
+		}
+		seen[inner] = true
+		var s schedJ
+		if err := json.Unmarshal([]byte(inner), &s); err != nil {
+			vlib.Infra("schedule export: %v in %s", err, inner)
+		}
+		scheds = append(scheds, s)
+	}
+	if len(scheds) < 100 {
+		vlib.Infra("schedule export produced only %d behaviours", len(scheds))
+	}
+	sort.Slice(scheds, func(i, j int) bool {
+		a, _ := json.Marshal(scheds[i])
+		b, _ := json.Marshal(scheds[j])
+		return string(a) < string(b)
+	})
+	rng := rand.New(rand.NewSource(vlib.Seed() + 101))
+	max := 1500
+	if thorough {
+		max = 6000
+	}
+	if len(scheds) > max {
+		// keep all 2-request schedules, sample the 3-request ones
+		var keep, rest []schedJ
+		for _, s := range scheds {
+			if len(s.Reqs) == 2 {
+				keep = append(keep, s)
+			} else {
+				rest = append(rest, s)
+			}
+		}
+		rng.Shuffle(len(rest), func(i, j int) { rest[i], rest[j] = rest[j], rest[i] })
+		if len(keep) < max {
+			keep = append(keep, rest[:min(len(rest), max-len(keep))]...)
+		}
+		scheds = keep
+	}
+	var out, all []*c03lib.Session
+	masks := []int{63, 0b111100, 0b000011, 0b101010}
+	div := 0
+	for i, sj := range scheds {
+		s := &c03lib.Session{Cfg: c03lib.Config{ID: fmt.Sprintf("sched%d", i), CK: sj.CK, CN: sj.CN, Sugg: sj.Sugg, Rules0: []string{"FOCT"},
+			Exts: []c03lib.HookSet{c03lib.HookSetOf(masks[rng.Intn(len(masks))])}}}
+		var step []*c03lib.Request
+		for _, rq := range sj.Reqs {
+			step = append(step, concretise(rq.Q, rq.Cls, rq.OpSel, rq.VCls))
+		}
+		s.Steps = [][]*c03lib.Request{step}
+		s.Sched = []c03lib.SchedOp{}
+		for _, g := range sj.GLog {
+			s.Sched = append(s.Sched, c03lib.SchedOp{R: g.R, Op: g.Op, D: g.D})
+		}
+		all = append(all, s)
+	}
+	all = runSessions("sched", all)
+	for i, s := range all {
+		sj := scheds[i]
+		step := s.Steps[0]
+		if s.NotRun != "" {
+			continue
+		}
+		c.AddEvals(int64(len(step)))
+		for _, cl := range s.Classes() {
+			c.Class("sched/" + cl)
+		}
+		if len(s.Panics) > 0 {
+			reportPanics(s)
+			continue
+		}
+		// compare with what the model prescribes: order and outcome of the
+		// cache operations, final answer of every request
+		problem := s.Diverge
+		if problem == "" {
+			var got []string
+			for _, ln := range s.Lines {
+				var ev c03lib.Ev
+				if json.Unmarshal(ln, &ev) == nil && ev.E == "H" && (ev.K == "cget" || ev.K == "cadd") {
+					got = append(got, fmt.Sprintf("%d:%s:%s", ev.R, ev.K, ev.D))
+				}
+			}
+			var want []string
+			for _, g := range sj.GLog {
+				want = append(want, fmt.Sprintf("%d:%s:%s", g.R, g.Op, g.D))
+			}
+			if strings.Join(got, " ") != strings.Join(want, " ") {
+				problem = fmt.Sprintf("cache operations %v, the model prescribes %v", got, want)
+			}
+			for j, rq := range sj.Reqs {
+				q := step[j]
+				last := "none"
+				if len(q.Resps) > 0 {
+					last = q.Resps[len(q.Resps)-1]
+				}
+				if last != rq.Last && problem == "" {
+					problem = fmt.Sprintf("request %d (%s) answered %q, the model prescribes %q", j+1, q.Kind, last, rq.Last)
+				}
+			}
+		}
+		if problem != "" {
+			div++
+			kinds := []string{}
+			for _, q := range step {
+				kinds = append(kinds, q.Kind)
+			}
+			c.Violate("replay-diverged:"+strings.Join(kinds, "+")+":"+sj.CK, "forced interleaving of cache operations: "+problem+"\nconfiguration: "+jsonStr(s.Cfg)+"\nschedule: "+jsonStr(s.Sched), s)
+			continue
+		}
+		out = append(out, s)
+	}
+	c.Set("replayed_interleavings", len(scheds))
+	fmt.Fprintf(os.Stderr, "[replay] %d TLC-generated interleavings of cache operations forced on the real executor, %d diverged\n", len(scheds), div)
+	if len(out) > 0 {
+		c.Sample(map[string]any{"replayed_schedule": out[len(out)/2].Sched, "config": out[len(out)/2].Cfg})
+	}
+	return out
+}
+
+// ---------------------------------------------------------------------------
+// (B) random sessions
+
+func randomSessions() []*c03lib.Session {
+	n := 300
+	if thorough {
+		n = 5000
+	}
+	rng := rand.New(rand.NewSource(vlib.Seed()))
+	var gen, out []*c03lib.Session
+	for i := 0; i < n; i++ {
+		gen = append(gen, c03lib.GenSession(rng, fmt.Sprintf("rnd%d", i), 12))
+	}
+	for _, s := range runSessions("rnd", gen) {
+		if s.NotRun != "" {
+			continue
+		}
+		for _, st := range s.Steps {
+			for _, q := range st {
+				if !q.Consistent() {
+					vlib.Infra("request alphabet: %q meant as %s is classified %s/%s/%s", q.Query, q.Kind, q.Cls, q.OpSel, q.VarCls)
+				}
+				c.AddEvals(1)
+			}
+		}
+		for _, cl := range s.Classes() {
+			c.Class(cl)
+		}
+		if len(s.Panics) > 0 {
+			reportPanics(s)
+		}
+		out = append(out, s)
+	}
+	return out
+}
+
+// runSessions executes sessions in child processes (see c03lib.Job) and
+// returns them with their results, in order.
+func runSessions(name string, ss []*c03lib.Session) []*c03lib.Session {
+	out := make([]*c03lib.Session, 0, len(ss))
+	const batch = 500
+	spawned := 0
+	for len(out) < len(ss) {
+		rest := ss[len(out):min(len(ss), len(out)+batch)]
+		spawned++
+		if spawned > len(ss)/batch+30 {
+			vlib.Infra("session children keep dying (%d spawned for %d sessions)", spawned, len(ss))
+		}
+		lines, stderr := runChild(fmt.Sprintf("%s-%d", name, spawned), c03lib.Job{Sessions: rest})
+		got := 0
+		finished := false
+		for _, l := range lines {
+			switch {
+			case l.Session != nil:
+				s := l.Session
+				for _, ln := range s.LinesS {
+					s.Lines = append(s.Lines, []byte(ln))
+				}
+				s.LinesS = nil
+				out = append(out, s)
+				got++
+			case l.Damaged != "":
+				last := rest[0].Cfg
+				if got > 0 {
+					last = out[len(out)-1].Cfg
+				}
+				violateOnce(keyPanic, "after a session with concurrent requests and SetDisableSuggestion(true), "+l.Damaged+"\nlast configuration: "+jsonStr(last), map[string]any{"window": true})
+				finished = true
+			case l.Done:
+				finished = true
+			}
+		}
+		if !finished {
+			// the child died in the middle of a session: that session is lost
+			if got < len(rest) {
+				lost := *rest[got]
+				lost.NotRun = "child process died: " + tailStr(stderr, 1500)
+				if strings.Contains(stderr, "validator.") && lost.Cfg.Sugg {
+					violateOnce(keyPanic, "the process died during a session with SetDisableSuggestion(true):\n"+tailStr(stderr, 1800), &lost)
+				} else {
+					vlib.Infra("session child died:\n%s", tailStr(stderr, 3000))
+				}
+				out = append(out, &lost)
+			}
+		}
+	}
+	return out
+}
+
+func runChild(name string, job c03lib.Job) ([]c03lib.ChildLine, string) {
+	dir := vlib.Work("C03", "child")
+	_ = os.MkdirAll(dir, 0o755)
+	jf, rf := filepath.Join(dir, name+".job.json"), filepath.Join(dir, name+".result.ndjson")
+	b, _ := json.Marshal(job)
+	if err := os.WriteFile(jf, b, 0o644); err != nil {
+		vlib.Infra("child job: %v", err)
+	}
+	_ = os.Remove(rf)
+	self, err := os.Executable()
+	if err != nil {
+		vlib.Infra("child: %v", err)
+	}
+	env := append(os.Environ(), "C03_MODE=child", "C03_JOB="+jf, "C03_RESULT="+rf)
+	stderr, _ := vlib.RunCmd(vlib.Harness(), env, 20*time.Minute, self)
+	rb, _ := os.ReadFile(rf)
+	var lines []c03lib.ChildLine
+	for _, ln := range bytes.Split(rb, []byte("\n")) {
+		if len(bytes.TrimSpace(ln)) == 0 {
+			continue
+		}
+		var l c03lib.ChildLine
+		if err := json.Unmarshal(ln, &l); err != nil {
+			break // a torn last line of a dead child
+		}
+		lines = append(lines, l)
+	}
+	_ = os.Remove(jf)
+	_ = os.Remove(rf)
+	return lines, stderr
+}
+
+// reportPanics classifies panics that left gqlgen during a session.
+func reportPanics(s *c03lib.Session) {
+	for _, p := range s.Panics {
+		inValidate := strings.Contains(p, "validator.Validate(") && strings.Contains(p, "executor.(*Executor).parseQuery")
+		switch {
+		case inValidate && s.Cfg.Sugg:
+			violateOnce(keyPanic, "a request panicked inside validator.Validate called from executor.parseQuery (nil RuleFunc in the global rule slice after concurrent RemoveRule/ReplaceRule)\nconfiguration: "+jsonStr(s.Cfg)+"\n"+tailStr(p, 1800), s)
+		case strings.Contains(firstFrame(p), "verifharness/"):
+			vlib.Infra("panic in harness code:\n%s", p)
+		default:
+			c.Violate("panic:"+firstFrame(p), "a request panicked:\nconfiguration: "+jsonStr(s.Cfg)+"\n"+tailStr(p, 1800), s)
+		}
+	}
+}
+
+// firstFrame is the function that panicked (first frame below panic()).
+func firstFrame(stack string) string {
+	lines := strings.Split(stack, "\n")
+	for i, ln := range lines {
+		if strings.HasPrefix(ln, "panic(") && i+2 < len(lines) {
+			f := lines[i+2]
+			if j := strings.LastIndex(f, "("); j > 0 {
+				f = f[:j]
+			}
+			return f
+		}
+	}
+	return "unknown"
+}
+
+// ---------------------------------------------------------------------------
+// trace validation
+
+type rejection struct {
+	s      *c03lib.Session
+	lineNo int
+	line   string
+	prefix []string
+}
+
+// tlcTraces validates the concatenated sessions; a rejected session is
+// removed and the rest re-validated. Returns the rejected sessions.
+func tlcTraces(name, cfg string, ss []*c03lib.Session, count bool) []rejection {
+	var rej []rejection
+	remaining := ss
+	for round := 0; round < 40 && len(remaining) > 0; round++ {
+		var buf bytes.Buffer
+		var owner []int
+		var all []string
+		for i, s := range remaining {
+			for _, ln := range s.Lines {
+				buf.Write(ln)
+				buf.WriteByte('\n')
+				owner = append(owner, i)
+				all = append(all, string(ln))
+			}
+		}
+		res, err := vlib.RunTLC(vlib.TLCOpts{Module: "PipelineTrace", Config: cfg, Workers: 1, DFS: true,
+			Data: map[string][]byte{"trace.ndjson": buf.Bytes()}, Scratch: vlib.Work("C03", fmt.Sprintf("tv-%s-%d", name, round)), Timeout: 30 * time.Minute})
+		if err != nil {
+			vlib.Infra("trace validation: %v", err)
+		}
+		if count {
+			c.AddStates(res.Distinct, res.Generated)
+		}
+		if res.OK {
+			if count {
+				c.AddTraces(int64(len(remaining)))
+			}
+			return rej
+		}
+		if res.RejectedAt == 0 || res.RejectedAt > len(owner) {
+			vlib.Infra("TLC failed without a trace rejection (%s):\n%s", cfg, tailStr(res.Output, 3000))
+		}
+		idx := owner[res.RejectedAt-1]
+		first := res.RejectedAt - 1
+		for first > 0 && owner[first-1] == idx {
+			first--
+		}
+		rej = append(rej, rejection{s: remaining[idx], lineNo: res.RejectedAt - first, line: all[res.RejectedAt-1], prefix: all[first : res.RejectedAt-1]})
+		if count {
+			c.AddTraces(int64(idx))
+		}
+		remaining = remaining[idx+1:]
+	}
+	return rej
+}
+
+func validate(sessions []*c03lib.Session) {
+	var ok []*c03lib.Session
+	for _, s := range sessions {
+		ok = append(ok, s)
+	}
+	t0 := time.Now()
+	nlines := 0
+	for _, s := range ok {
+		nlines += len(s.Lines)
+	}
+	var rejs []rejection
+	const batch = 1000
+	for i := 0; i < len(ok); i += batch {
+		rejs = append(rejs, tlcTraces(fmt.Sprintf("strict%d", i/batch), "PipelineTrace.cfg", ok[i:min(len(ok), i+batch)], true)...)
+	}
+	fmt.Fprintf(os.Stderr, "[trace] %d sessions, %d trace lines validated against PipelineTrace (repaired rule model) in %.1fs: %d rejected\n", len(ok), nlines, time.Since(t0).Seconds(), len(rejs))
+	c.Set("trace_lines", nlines)
+	for _, r := range rejs {
+		classifyRejection(r)
+	}
+	for _, s := range ok {
+		if len(s.Steps) > 2 && len(s.Cfg.Exts) > 1 && !s.Cfg.HTTP {
+			c.Sample(map[string]any{"session": s.Cfg, "trace_head": headLines(s.Lines, 14)})
+			break
+		}
+	}
+}
+
+// classifyRejection decides what a session rejected by the repaired model is:
+// if the model of the current code (per-request swap, word level) explains it,
+// the session needed the rule-swap race; otherwise it is something else.
+func classifyRejection(r rejection) {
+	var ev c03lib.Ev
+	_ = json.Unmarshal([]byte(r.line), &ev)
+	kind := "?"
+	for _, st := range r.s.Steps {
+		for _, q := range st {
+			if q.R == ev.R {
+				kind = q.Kind
+			}
+		}
+	}
+	detail := fmt.Sprintf("configuration: %s\nthe specification rejects trace line %d: %s\n(request kind: %s)\nlast accepted events: %s",
+		jsonStr(r.s.Cfg), r.lineNo, r.line, kind, strings.Join(lastN(r.prefix, 10), " | "))
+	if r.s.Cfg.Sugg {
+		lenient := tlcTraces("lenient", "PipelineTraceCur.cfg", []*c03lib.Session{r.s}, false)
+		if len(lenient) == 0 {
+			key := keyAccepted
+			if len(r.s.Panics) > 0 {
+				key = keyPanic
+			}
+			violateOnce(key, "explained only by the model of the per-request rule swap (RuleModel \"words\")\n"+detail, r.s)
+			return
+		}
+	}
+	e := ev.E
+	if ev.E == "H" {
+		e = ev.K + "/" + ev.D
+	}
+	c.Violate("trace-rejected:"+e+":"+kind, detail, r.s)
+}
+
+// selfTest corrupts recorded sessions and requires TLC to reject each
+// corruption (the binding is demonstrated, not assumed).
+func selfTest(sessions []*c03lib.Session) {
+	type mut struct {
+		name string
+		f    func(evs []map[string]any) []map[string]any
+	}
+	find := func(evs []map[string]any, pred func(a map[string]any) bool) int {
+		for i, e := range evs {
+			if e["e"] == "H" && pred(e) {
+				return i
+			}
+		}
+		return -1
+	}
+	muts := []mut{
+		{"swap-two-interceptor-entries", func(evs []map[string]any) []map[string]any {
+			for i := 0; i+1 < len(evs); i++ {
+				a, b := evs[i], evs[i+1]
+				if a["e"] == "H" && b["e"] == "H" && a["k"] == b["k"] && a["d"] == "in" && b["d"] == "in" && a["r"] == b["r"] && a["i"] != b["i"] {
+					evs[i], evs[i+1] = b, a
+					return evs
+				}
+			}
+			return nil
+		}},
+		{"drop-resolver-event", func(evs []map[string]any) []map[string]any {
+			i := find(evs, func(a map[string]any) bool { return a["k"] == "res" })
+			if i < 0 {
+				return nil
+			}
+			return append(evs[:i:i], evs[i+1:]...)
+		}},
+		{"duplicate-hook-event", func(evs []map[string]any) []map[string]any {
+			i := find(evs, func(a map[string]any) bool { return a["k"] == "oi" || a["k"] == "fi" || a["k"] == "cm" })
+			if i < 0 {
+				return nil
+			}
+			out := append([]map[string]any{}, evs[:i+1]...)
+			out = append(out, evs[i])
+			return append(out, evs[i+1:]...)
+		}},
+		{"exec-for-rejected-request", func(evs []map[string]any) []map[string]any {
+			i := find(evs, func(a map[string]any) bool { return a["k"] == "resp" && a["d"] == "errors" })
+			if i < 0 {
+				return nil
+			}
+			out := append([]map[string]any{}, evs[:i]...)
+			out = append(out, map[string]any{"e": "H", "r": evs[i]["r"], "k": "exec", "d": "call", "i": 0, "f": ""})
+			return append(out, evs[i:]...)
+		}},
+		{"cache-add-before-miss-is-validated", func(evs []map[string]any) []map[string]any {
+			// an unknown-field / invalid request that adds to the cache
+			for i, e := range evs {
+				if e["e"] == "Req" && (e["cls"] == "unk" || e["cls"] == "inv") {
+					j := -1
+					for k := i + 1; k < len(evs); k++ {
+						if evs[k]["e"] == "H" && evs[k]["r"] == e["r"] && evs[k]["k"] == "cget" && evs[k]["d"] == "miss" {
+							j = k
+							break
+						}
+					}
+					if j < 0 {
+						continue
+					}
+					out := append([]map[string]any{}, evs[:j+1]...)
+					out = append(out, map[string]any{"e": "H", "r": e["r"], "k": "cadd", "d": "call", "i": 0, "f": evs[j]["f"]})
+					return append(out, evs[j+1:]...)
+				}
+			}
+			return nil
+		}},
+		{"flip-cache-hit", func(evs []map[string]any) []map[string]any {
+			i := find(evs, func(a map[string]any) bool { return a["k"] == "cget" })
+			if i < 0 {
+				return nil
+			}
+			cp := map[string]any{}
+			for k, v := range evs[i] {
+				cp[k] = v
+			}
+			if cp["d"] == "hit" {
+				cp["d"] = "miss"
+			} else {
+				cp["d"] = "hit"
+			}
+			evs[i] = cp
+			return evs
+		}},
+		{"response-with-data-for-rejected-request", func(evs []map[string]any) []map[string]any {
+			i := find(evs, func(a map[string]any) bool { return a["k"] == "resp" && a["d"] == "errors" })
+			if i < 0 {
+				return nil
+			}
+			cp := map[string]any{}
+			for k, v := range evs[i] {
+				cp[k] = v
+			}
+			cp["d"] = "mixed"
+			evs[i] = cp
+			return evs
+		}},
+	}
+	done := map[string]bool{}
+	res := map[string]string{}
+	for _, m := range muts {
+		for _, s := range sessions {
+			if len(s.Panics) > 0 || len(s.Lines) < 20 {
+				continue
+			}
+			var evs []map[string]any
+			for _, ln := range s.Lines {
+				var e map[string]any
+				if err := json.Unmarshal(ln, &e); err != nil {
+					vlib.Infra("self-test: %v", err)
+				}
+				evs = append(evs, e)
+			}
+			mutated := m.f(evs)
+			if mutated == nil {
+				continue
+			}
+			cs := &c03lib.Session{Cfg: s.Cfg}
+			for _, e := range mutated {
+				b, _ := json.Marshal(e)
+				cs.Lines = append(cs.Lines, b)
+			}
+			r := tlcTraces("selftest", "PipelineTrace.cfg", []*c03lib.Session{cs}, false)
+			if len(r) == 0 {
+				vlib.Infra("binding self-test: the corruption %q of a recorded session was ACCEPTED by the trace specification", m.name)
+			}
+			done[m.name] = true
+			res[m.name] = "rejected at line " + strconv.Itoa(r[0].lineNo)
+			break
+		}
+		if !done[m.name] {
+			vlib.Infra("binding self-test: no recorded session to apply corruption %q to", m.name)
+		}
+	}
+	c.Set("binding_self_test", res)
+	fmt.Fprintf(os.Stderr, "[selftest] %d corruptions of recorded sessions all rejected by the trace specification\n", len(res))
+}
+
+// ---------------------------------------------------------------------------
+// (C) statistical reproduction of the rule-swap window
+
+func window() {
+	trials, budget := 12000, 12*time.Second
+	if thorough {
+		trials, budget = 150000, 90*time.Second
+	}
+	agg := map[string]any{}
+	for _, k := range []int{2, 3, 4} {
+		lines, stderr := runChild(fmt.Sprintf("window-%d", k), c03lib.Job{Window: &c03lib.WindowJob{K: k, Trials: trials / 3, BudgetMs: int(budget.Milliseconds() / 3)}})
+		if len(lines) == 0 || lines[0].Window == nil {
+			if strings.Contains(stderr, "validator.") {
+				violateOnce(keyPanic, "the process running the window experiment died:\n"+tailStr(stderr, 1800), map[string]any{"window": true, "goroutines": k})
+				continue
+			}
+			vlib.Infra("window child died:\n%s", tailStr(stderr, 3000))
+		}
+		st := lines[0].Window
+		agg[fmt.Sprintf("k=%d", k)] = st
+		if st.Damaged != "" {
+			c.Class("window/damaged")
+			violateOnce(keyPanic, fmt.Sprintf("%d goroutines: %s", k, st.Damaged), map[string]any{"window": true, "goroutines": k})
+		}
+		c.AddEvals(int64(st.Trials * k))
+		fmt.Fprintf(os.Stderr, "[window] %d goroutines x %d trials (SetDisableSuggestion(true), cold cache, fresh rule set): %d unknown-field requests accepted, %d resolvers run for them, %d such documents cached, %d panics, %d poisoned rule sets (%.1fs)\n",
+			k, st.Trials, st.Accepted, st.Executed, st.Cached, st.Panics, st.Poisoned, st.WallS)
+		if st.Accepted > 0 {
+			c.Class("window/accepted")
+			violateOnce(keyAccepted, fmt.Sprintf("%d goroutines issuing unknown-field documents concurrently as the first requests of an executor with SetDisableSuggestion(true): in %d of %d trials a request passed validation, its document was added to the query cache (%d times) and its resolvers ran (%d), e.g. %s; first hit in trial %d\nevents of that trial: %v",
+				k, st.TrialsHit, st.Trials, st.Cached, st.Executed, st.ExampleData, st.FirstHit, st.Example), map[string]any{"window": true, "goroutines": k})
+		}
+		if st.Panics > 0 {
+			c.Class("window/panic")
+			violateOnce(keyPanic, fmt.Sprintf("%d goroutines, %d trials: %d requests panicked in validator.Validate; after %d trials the rule set kept a nil rule, so a later sequential valid request panicked too\n%s",
+				k, st.Trials, st.Panics, st.Poisoned, tailStr(st.PanicText, 1500)), map[string]any{"window": true, "goroutines": k})
+		}
+	}
+	c.Set("rule_swap_window", agg)
+}
+
+// ---------------------------------------------------------------------------
+// -race
+
+func raceRun() {
+	bin := vlib.Work("C03", "c03race")
+	_ = os.MkdirAll(filepath.Dir(bin), 0o755)
+	out, err := vlib.RunCmd(vlib.Harness(), vlib.GoEnv(), 15*time.Minute, "go", "build", "-race", "-tags", "verif", "-o", bin, "./cmd/c03")
+	if err != nil {
+		c.Set("race_detector", "not run: go build -race failed: "+tailStr(out, 400))
+		fmt.Fprintf(os.Stderr, "[race] go build -race failed, skipped: %s\n", tailStr(out, 400))
+		return
+	}
+	logp := vlib.Work("C03", "race-report")
+	old, _ := filepath.Glob(logp + ".*")
+	for _, f := range old {
+		_ = os.Remove(f)
+	}
+	env := append(os.Environ(), "C03_MODE=race", "GORACE=halt_on_error=0 log_path="+logp)
+	o, _ := vlib.RunCmd(vlib.Harness(), env, 15*time.Minute, bin)
+	if !strings.Contains(o, "RACE-CHILD-DONE") {
+		vlib.Infra("race child did not finish:\n%s", tailStr(o, 2000))
+	}
+	files, _ := filepath.Glob(logp + ".*")
+	var reports []string
+	for _, f := range files {
+		b, _ := os.ReadFile(f)
+		for _, blk := range strings.Split(string(b), "==================") {
+			if strings.Contains(blk, "WARNING: DATA RACE") {
+				reports = append(reports, blk)
+			}
+		}
+	}
+	known, other := 0, 0
+	for _, blk := range reports {
+		switch {
+		case strings.Contains(blk, "validator.RemoveRule") || strings.Contains(blk, "validator.ReplaceRule"):
+			known++
+			violateOnce(keyDataRace, "go run -race of the concurrent driver (sessions with SetDisableSuggestion(true)):\n"+tailStr(blk, 1800), map[string]any{"race": true})
+		case !strings.Contains(blk, "github.com/99designs/gqlgen") && !strings.Contains(blk, "gqlparser"):
+			vlib.Infra("data race inside the harness itself:\n%s", blk)
+		default:
+			other++
+			c.Violate("data-race:"+raceKey(blk), "go race detector report:\n"+tailStr(blk, 1800), map[string]any{"race": true})
+		}
+	}
+	c.Set("race_detector", map[string]any{"reports": len(reports), "on_rule_swap": known, "other": other, "child": strings.TrimSpace(lastLine(o))})
+	fmt.Fprintf(os.Stderr, "[race] %d race reports (%d on the rule swap, %d other)\n", len(reports), known, other)
+}
+
+func raceKey(blk string) string {
+	for _, ln := range strings.Split(blk, "\n") {
+		ln = strings.TrimSpace(ln)
+		if strings.HasPrefix(ln, "github.com/") {
+			if j := strings.Index(ln, "("); j > 0 {
+				return ln[:j]
+			}
+		}
+	}
+	return "unknown"
+}
+
+// raceChild is the concurrent driver compiled with -race (no TLC).
+func raceChild() {
+	rng := rand.New(rand.NewSource(vlib.Seed()))
+	n, reqs := 400, 0
+	for i := 0; i < n; i++ {
+		s := c03lib.GenSession(rng, fmt.Sprintf("race%d", i), 12)
+		if err := c03lib.SafeReset(es.Schema()); err != nil {
+			fmt.Printf("RACE-CHILD-DAMAGED %v\n", err)
+			break
+		}
+		s.Run(es)
+		for _, st := range s.Steps {
+			reqs += len(st)
+		}
+	}
+	st := c03lib.RunWindow(es, 3, 300, 20*time.Second, 0)
+	fmt.Printf("RACE-CHILD-DONE sessions=%d requests=%d window_trials=%d\n", n, reqs, st.Trials)
+}
+
+// ---------------------------------------------------------------------------
+
+func replay(file string) {
+	b, err := os.ReadFile(file)
+	if err != nil {
+		vlib.Infra("replay: %v", err)
+	}
+	var doc struct {
+		Key      string          `json:"key"`
+		Scenario json.RawMessage `json:"scenario"`
+	}
+	if err := json.Unmarshal(b, &doc); err != nil {
+		vlib.Infra("replay: %v", err)
+	}
+	var probe map[string]any
+	_ = json.Unmarshal(doc.Scenario, &probe)
+	if probe["window"] == true {
+		window()
+		c.Finish()
+	}
+	if probe["race"] == true {
+		raceRun()
+		c.Finish()
+	}
+	var s0 c03lib.Session
+	if err := json.Unmarshal(doc.Scenario, &s0); err != nil {
+		vlib.Infra("replay: %v", err)
+	}
+	s0.Panics, s0.Diverge, s0.LinesS = nil, "", nil
+	s := runSessions("replay", []*c03lib.Session{&s0})[0]
+	c.AddEvals(1)
+	if len(s.Panics) > 0 {
+		reportPanics(s)
+	}
+	if s.Diverge != "" {
+		c.Violate(doc.Key, "forced interleaving diverged again: "+s.Diverge, s)
+	}
+	for _, ln := range s.Lines {
+		fmt.Println(string(ln))
+	}
+	validate([]*c03lib.Session{s})
+	c.Finish()
+}
+
+// onceKeys: the rule-swap findings are reported once per run
+var onceKeys = map[string]bool{}
+
+func violateOnce(key, detail string, replay any) {
+	if onceKeys[key] {
+		return
+	}
+	onceKeys[key] = true
+	c.Violate(key, detail, replay)
+}
+
+func jsonStr(v any) string { b, _ := json.Marshal(v); return string(b) }
+
+func tailStr(s string, n int) string {
+	if len(s) > n {
+		return "..." + s[len(s)-n:]
+	}
+	return s
+}
+
+func lastLine(s string) string {
+	ls := strings.Split(strings.TrimSpace(s), "\n")
+	return ls[len(ls)-1]
+}
+
+func lastN(ss []string, n int) []string {
+	if len(ss) > n {
+		ss = ss[len(ss)-n:]
+	}
+	return ss
+}
+
+func headLines(ls [][]byte, n int) []string {
+	out := []string{}
+	for i := 0; i < len(ls) && i < n; i++ {
+		out = append(out, string(ls[i]))
+	}
+	return out
 }
